@@ -3,7 +3,6 @@ package main
 import (
 	"fmt"
 	"go/token"
-	"os"
 	"strings"
 
 	"golang.org/x/tools/go/ssa"
@@ -414,9 +413,6 @@ func runValidatorTable(c *Ctx) {
 					continue
 				}
 				cond, neg := stripNot(ifi.Cond)
-				if os.Getenv("LINT_DEBUG") != "" && t.Name == "dotdot" {
-					fmt.Fprintf(os.Stderr, "DEBUG %s b%d cond=%v (%T) match=%v\n", fnName, b.Index, cond, cond, t.Match(p, cond, subject))
-				}
 				if !t.Match(p, cond, subject) {
 					continue
 				}
@@ -426,8 +422,6 @@ func runValidatorTable(c *Ctx) {
 				}
 				if rejectEdgeFrom(p, b, rej, errStyle) {
 					found = true
-				} else if os.Getenv("LINT_DEBUG") != "" {
-					fmt.Fprintf(os.Stderr, "DEBUG validator %s %s: match in b%d rej=b%d not rejecting\n", fnName, t.Name, b.Index, rej.Index)
 				}
 			}
 			c.verdictIf(found, P, "validator", "fn="+fnName+" rejects="+t.Name, p.pos(fn.Pos()), "rejected", fnName+" has no test of its name argument for '"+t.Name+"' whose true edge returns a rejection")
@@ -446,16 +440,16 @@ func runValidatorTable(c *Ctx) {
 			}
 			cond, _ := stripNot(ifi.Cond)
 			if bo, ok := cond.(*ssa.BinOp); ok && bo.Op == token.GTR && isLenOf(bo.X, s) {
-				if k, ok := constInt(bo.Y); ok && k == 255 && rejectEdgeFrom(p, b, b.Succs[0],false) {
+				if k, ok := constInt(bo.Y); ok && k == 255 && rejectEdgeFrom(p, b, b.Succs[0], false) {
 					long = true
 				}
 			}
 			if bo, ok := cond.(*ssa.BinOp); ok && bo.Op == token.GEQ && isLenOf(bo.X, s) {
-				if k, ok := constInt(bo.Y); ok && k == 256 && rejectEdgeFrom(p, b, b.Succs[0],false) {
+				if k, ok := constInt(bo.Y); ok && k == 256 && rejectEdgeFrom(p, b, b.Succs[0], false) {
 					long = true
 				}
 			}
-			if stringsCallWith(cond, s, []string{"strings.Contains", "strings.ContainsAny", "strings.ContainsRune"}, func(n string) bool { return strings.Contains(n, "\x00") }) && rejectEdgeFrom(p, b, b.Succs[0],false) {
+			if stringsCallWith(cond, s, []string{"strings.Contains", "strings.ContainsAny", "strings.ContainsRune"}, func(n string) bool { return strings.Contains(n, "\x00") }) && rejectEdgeFrom(p, b, b.Succs[0], false) {
 				nul = true
 			}
 		}
@@ -485,7 +479,7 @@ func runValidatorTable(c *Ctx) {
 				if s, ok := constStr(argN(call, 1)); ok && s == "\x00" {
 					isNul = true
 				}
-				if isNul && rejectEdgeFrom(p, b, b.Succs[0],true) {
+				if isNul && rejectEdgeFrom(p, b, b.Succs[0], true) {
 					nul = true
 				}
 			}
